@@ -41,6 +41,9 @@ impl Prop for C13P {
         let mut v: Vec<String> = receivers(n, true, tier == Tier::Thorough, &parents).iter().map(|r| r.enc()).collect();
         for (c, r) in crate::engine::util::shapes(3) {
             v.push(format!("zst {}x{}", c, r));
+            if c > 0 {
+                v.push(format!("faultfill {}x{}", c, r));
+            }
         }
         v
     }
@@ -55,6 +58,11 @@ impl Prop for C13P {
             super::ops::zst_panic_differential(c, r, &ops, ctx);
             return;
         }
+        if let Some(dims) = unit.strip_prefix("faultfill ") {
+            let (c, r) = dims.split_once('x').unwrap();
+            run_fault_fill(c.parse().unwrap(), r.parse().unwrap(), ctx);
+            return;
+        }
         let rd = Recv::parse(unit);
         run_receiver(&rd, ctx);
     }
@@ -62,7 +70,7 @@ impl Prop for C13P {
         "for every receiver (owned arrays of every shape, every window of the listed parents as TooDeeViewMut, nested windows in the thorough tier, and two third-party implementors that forward only the required trait methods so that every default method body runs): \
          swap(a,b) for all coordinate pairs in (0..=dim+1)^4 plus huge components, swap_rows / swap_cols / row_pair_mut for all index pairs in (0..=dim+1 + huge)^2, fill. \
          In range: exactly the named cells/rows/columns exchanged (whole parent compared with the model, so cells outside a window are covered), row_pair_mut slices compared by address and order; out of range (or r1==r2 for row_pair_mut): must panic and leave the parent unchanged. \
-         Arrays and windows of the zero-sized () must accept and reject exactly the same arguments as arrays of ordinary elements (shapes up to 3x3). A case is (receiver, call, arguments); non-trivial when the receiver is non-empty; distinct by (receiver, call, arguments)."
+         After a fill whose Clone panics at any call (caught) the swap primitives must still do exactly their job on the surviving array. Arrays and windows of the zero-sized () must accept and reject exactly the same arguments as arrays of ordinary elements (shapes up to 3x3). A case is (receiver, call, arguments); non-trivial when the receiver is non-empty; distinct by (receiver, call, arguments)."
             .into()
     }
     fn bound(&self, tier: Tier) -> String {
@@ -193,6 +201,106 @@ fn run_receiver(rd: &Recv, ctx: &mut Ctx) {
             judge(cs, "fill", true, res.is_ok(), diff_parent(&p, &expect));
         },
     );
+}
+
+/// fill(v) whose Clone panics at the k-th call (caught): the array must still be an array of the
+/// same size holding old or new values, and the swap primitives must still do exactly their job on it.
+fn run_fault_fill(c: usize, r: usize, ctx: &mut Ctx) {
+    use crate::engine::ledger::{self, Tracked};
+    use toodee::TooDee;
+    for window in [false, true] {
+        let (pc, pr, off) = if window { (c + 1, r + 1, (1usize, 1usize)) } else { (c, r, (0, 0)) };
+        let build = || -> TooDee<Tracked> { TooDee::from_vec(pc, pr, (0..pc * pr).map(|i| Tracked::new(i as u32)).collect()) };
+        let do_fill = |p: &mut TooDee<Tracked>| {
+            if window {
+                p.view_mut(off, (off.0 + c, off.1 + r)).fill(Tracked::new(500))
+            } else {
+                p.fill(Tracked::new(500))
+            }
+        };
+        let mut ticks = 0u64;
+        ctx.pilot_case(
+            || format!("fill on {} {}x{} of Tracked, counting calls into Clone/Drop", if window { "a window" } else { "an owned array" }, c, r),
+            |cs| {
+                let mut p = build();
+                ledger::arm(u64::MAX);
+                let _ = guarded(|| do_fill(&mut p));
+                ticks = ledger::disarm();
+                cs.nontrivial((window, c, r, "count"));
+                cs.outcome("accepted");
+            },
+        );
+        for k in 0..ticks {
+            ctx.case(
+                || format!("fill on {} {}x{} of Tracked with call #{} into Clone/Drop panicking, then swap / swap_rows / swap_cols", if window { "a window" } else { "an owned array" }, c, r, k),
+                |cs| {
+                    let mut p = build();
+                    ledger::arm(k);
+                    let _ = guarded(|| do_fill(&mut p));
+                    ledger::disarm();
+                    cs.nontrivial((window, c, r, k));
+                    cs.outcome("faulted-fill");
+                    if p.size() != (pc, pr) || p.data().len() != pc * pr {
+                        cs.fail("fill:invalid-after-panic", format!("after the caught panic size() = {:?} but data().len() = {}", p.size(), p.data().len()));
+                        std::mem::forget(p);
+                        return;
+                    }
+                    if p.data().iter().any(|e| !e.valid()) {
+                        cs.fail("fill:invalid-after-panic", "a cell holds a dead element after the caught panic".into());
+                        std::mem::forget(p);
+                        return;
+                    }
+                    // the swap primitives on the surviving array
+                    let ids = |p: &TooDee<Tracked>| -> Vec<u64> { p.data().iter().map(|e| e.id).collect() };
+                    let before = ids(&p);
+                    let idx = |x: usize, y: usize| (off.1 + y) * pc + off.0 + x;
+                    let mut expect = before.clone();
+                    expect.swap(idx(0, 0), idx(c - 1, r - 1));
+                    let res = guarded(|| {
+                        if window {
+                            p.view_mut(off, (off.0 + c, off.1 + r)).swap((0, 0), (c - 1, r - 1))
+                        } else {
+                            p.swap((0, 0), (c - 1, r - 1))
+                        }
+                    });
+                    if res.is_err() || ids(&p) != expect {
+                        cs.fail("swap:wrong-effect-after-faulted-fill", format!("swap((0,0),({},{})) on the array that survived a panicking fill: {:?}", c - 1, r - 1, res));
+                    }
+                    for x in 0..c {
+                        expect.swap(idx(x, 0), idx(x, r - 1));
+                    }
+                    let res = guarded(|| {
+                        if window {
+                            p.view_mut(off, (off.0 + c, off.1 + r)).swap_rows(0, r - 1)
+                        } else {
+                            p.swap_rows(0, r - 1)
+                        }
+                    });
+                    if res.is_err() || ids(&p) != expect {
+                        cs.fail("swap_rows:wrong-effect-after-faulted-fill", format!("swap_rows(0,{}) on the array that survived a panicking fill: {:?}", r - 1, res));
+                    }
+                    for y in 0..r {
+                        expect.swap(idx(0, y), idx(c - 1, y));
+                    }
+                    let res = guarded(|| {
+                        if window {
+                            p.view_mut(off, (off.0 + c, off.1 + r)).swap_cols(0, c - 1)
+                        } else {
+                            p.swap_cols(0, c - 1)
+                        }
+                    });
+                    if res.is_err() || ids(&p) != expect {
+                        cs.fail("swap_cols:wrong-effect-after-faulted-fill", format!("swap_cols(0,{}) on the array that survived a panicking fill: {:?}", c - 1, res));
+                    }
+                    drop(p);
+                    let (dd, gd, first) = ledger::problems();
+                    if dd + gd > 0 {
+                        cs.fail("fill:double-drop", format!("{} double / {} garbage drops: {}", dd, gd, first.unwrap_or_default()));
+                    }
+                },
+            );
+        }
+    }
 }
 
 fn judge(cs: &mut crate::engine::Case, op: &str, valid: bool, returned: bool, diff: Option<String>) {
